@@ -290,6 +290,26 @@ pub fn process_weak_refs(
                 }
             }
         }
+        // later rounds: the closure of every value traced in an earlier round of this pause must
+        // be complete before process_weak_refs is called again
+        if w.pause.weak_rounds > 1 {
+            let cur = w.pause.n;
+            let seeds: Vec<u64> = w.ephemerons.iter().filter(|e| e.value_traced_in_pause == cur).map(|e| e.value).collect();
+            let mut set: BTreeSet<u64> = BTreeSet::new();
+            w.close(&mut set, seeds);
+            let full = info.nursery != Some(true);
+            for id in set.iter() {
+                if let Some(o) = w.objs.get(id) {
+                    if w.satb_new.contains(id) {
+                        continue;
+                    }
+                    if full || (o.alloc_pause >= w.pauses_done && matches!(o.sem, SEM_DEFAULT | SEM_LOS)) {
+                        strong.push((*id, o.addr));
+                    }
+                }
+            }
+            w.count("weak_later_round_closure_checks");
+        }
         // ImmortalSpace::is_reachable answers false for every immortal object during a nursery GC
         // (the space is re-prepared but not traced), although the API documentation promises
         // `true` for mature objects in nursery GCs.  No listed property covers that query, so the
@@ -315,7 +335,12 @@ pub fn process_weak_refs(
                 violation(
                     "C13",
                     "closure-incomplete",
-                    format!("process_weak_refs round 1: strongly reachable object id {} at {:#x} is not yet reachable", id, addr),
+                    format!(
+                        "process_weak_refs round {}: object id {} at {:#x}, reachable from the roots or from a value traced in an earlier round, is not yet reachable: the transitive closure was not complete",
+                        with_world(|w| w.pause.weak_rounds),
+                        id,
+                        addr
+                    ),
                 );
             }
         }
